@@ -695,11 +695,7 @@ func (s *netSim) offerBlock(v *vnode, b *block.Block, raw []byte) {
 		s.r.violate(pv)
 		return
 	}
-	if _, more := v.pending[b.Index+1]; !more || s.r.tape.Chance(1, 2) {
-		sim.Wait()
-	} else {
-		s.r.out.Probes["blocks_added_back_to_back"]++
-	}
+	sim.Wait()
 	if err != nil {
 		if s.np.CorruptPM > 0 {
 			s.r.out.Probes["corrupted_block_rejected"]++
@@ -725,15 +721,12 @@ func (s *netSim) offerBlock(v *vnode, b *block.Block, raw []byte) {
 		if err := bc.AddBlock(nb); err != nil {
 			break
 		}
-		// the block queue of a real node adds consecutive blocks in a tight loop: the consensus service may get to see
-		// the first block's event only when the chain is already further (tape-chosen)
-		if s.r.tape.Chance(1, 2) {
-			sim.Wait()
-		} else {
-			s.r.out.Probes["blocks_added_back_to_back"]++
-		}
+		// (no second block without letting the node settle: this simulation's block queue is a synchronous adapter, the
+		// consensus service adds its own blocks through it, and a second AddBlock of the driver while the service is inside
+		// one would make the three wait for each other - the real queue is asynchronous; back-to-back additions are left
+		// to server mode, which runs the real queue)
+		sim.Wait()
 	}
-	sim.Wait()
 }
 
 func decodeMsgBlock(raw []byte, srih bool) (*block.Block, error) {
